@@ -123,7 +123,7 @@ func (db *SingleBucketBackend) getBucketWithFilePrefixLocked(bucket string, pref
 
 	// A prefix that does not lead to a directory matches no keys; that is an
 	// empty listing, not an error:
-	if isDir, err := afero.DirExists(db.fs, filepath.FromSlash(prefixPath)); err != nil {
+	if isDir, err := dirExists(db.fs, filepath.FromSlash(prefixPath)); err != nil {
 		return nil, err
 	} else if !isDir {
 		return response, nil
@@ -261,7 +261,7 @@ func (db *SingleBucketBackend) HeadObject(bucketName, objectName string) (*gofak
 	defer db.lock.Unlock()
 
 	stat, err := db.fs.Stat(filepath.FromSlash(objectName))
-	if os.IsNotExist(err) {
+	if isNotExist(err) {
 		return nil, gofakes3.KeyNotFound(objectName)
 	} else if err != nil {
 		return nil, err
@@ -297,7 +297,7 @@ func (db *SingleBucketBackend) GetObject(bucketName, objectName string, rangeReq
 	defer db.lock.Unlock()
 
 	f, err := db.fs.Open(filepath.FromSlash(objectName))
-	if os.IsNotExist(err) {
+	if isNotExist(err) {
 		return nil, gofakes3.KeyNotFound(objectName)
 	} else if err != nil {
 		return nil, err
@@ -473,7 +473,7 @@ func (db *SingleBucketBackend) deleteObjectLocked(bucketName, objectName string)
 
 	// S3 does not report an error when attemping to delete a key that does not exist, so
 	// we need to skip IsNotExist errors.
-	if err := db.fs.Remove(filepath.FromSlash(objectName)); err != nil && !os.IsNotExist(err) {
+	if err := db.fs.Remove(filepath.FromSlash(objectName)); err != nil && !isNotExist(err) {
 		return err
 	}
 	removeEmptyDirs(db.fs, "", path.Dir(objectName))
